@@ -75,7 +75,7 @@ def who():
 class GatedRun:
     """One session of the real code under a scripted keyboard and an explicit schedule."""
 
-    def __init__(self, pcfg, save_config, save_filename, script, load=False, limit=None, status_ok=True):
+    def __init__(self, pcfg, save_config, save_filename, script, load=False, limit=None, status_ok=True, age=None):
         self.pcfg = pcfg
         self.cfg = save_config
         self.fn = save_filename
@@ -88,6 +88,7 @@ class GatedRun:
         self.saves = 0
         self.error = None
         self.kbd_started = False
+        self.age = age          # total guessing time (seconds) the status report starts from
 
     # ---- the substitutions ----
     def _install(self):
@@ -193,7 +194,11 @@ class GatedRun:
         from . import session as _s
         _s.stamp_uuid(self.cfg, self.pcfg)
         self._install()
+        if self.age is not None and self.load and self.cfg.has_section('session_info'):
+            self.cfg.set('session_info', 'running_time', str(int(self.age)))
         sess = cs.CrackingSession(self.pcfg, self.cfg, self.fn)
+        if self.age is not None and not self.load:
+            sess.report.past_guessing_time = int(self.age)
         orig_save = sess._save_session
 
         def gsave():
@@ -224,6 +229,9 @@ class GatedRun:
         mt = threading.Thread(target=mbody, name='M', daemon=True)
         real_stderr = sys.stderr
         sys.stderr = err
+        real_stdout = sys.stdout
+        out = io.StringIO()
+        sys.stdout = out      # guesses go through the captured print_guess; anything arriving here is not a guess
         try:
             mt.start()
             steps = 0
@@ -248,10 +256,11 @@ class GatedRun:
             self.sched.stop_all()
             mt.join(timeout=5)
             sys.stderr = real_stderr
+            sys.stdout = real_stdout
             self._uninstall()
         return {'lines': list(self.lines), 'schedule': schedule, 'log': list(self.sched.log),
                 'q_consumed': self.q_consumed, 'finished': finished, 'error': self.error,
-                'saves': self.saves, 'stderr': err.getvalue()}
+                'saves': self.saves, 'stderr': err.getvalue(), 'stdout_noise': out.getvalue()}
 
 
 def main_first(enabled, step, gates):
